@@ -746,3 +746,13 @@ Proof. intros H. rewrite <- (remove_dups_abs f true H). reflexivity. Qed.
 
 Lemma w_sort_blocks_abs f : DedupWf f -> abs (w_sort_blocks f) = kdedup false (abs f).
 Proof. intros H. rewrite <- (remove_dups_abs f false H). reflexivity. Qed.
+
+(* a later operation sees what an earlier one did *)
+Lemma later_op_sees_earlier f (lo hi rat : str) f1 f2 :
+  add_retract f lo hi rat = ROk f1 -> drop_retract f1 lo hi = Some f2 ->
+  ~ In (lo, hi, rat) (k_retract (abs f2)).
+Proof.
+  intros H1 H2. rewrite (drop_retract_abs _ _ _ _ H2). cbn.
+  unfold drop. intros Hin. apply filter_In in Hin. destruct Hin as [_ Hin].
+  rewrite !str_eqb_refl in Hin. discriminate.
+Qed.
